@@ -22,6 +22,9 @@ pub fn qname(n: &RName) -> Box<Name> {
     Name::try_from_uncompressed_all(&n.wire()).expect("valid reference name rejected by quandary")
 }
 
+/// Set under Miri: the MX fan-out and the >16 KiB RRset are left out of bulky zones.
+pub static SMALL_ZONES: std::sync::atomic::AtomicBool = std::sync::atomic::AtomicBool::new(false);
+
 pub const LABELS: [&[u8]; 10] = [b"a", b"b", b"*", b"c", b"ns", b"www", b"A", b"mail", b"z", b"Zy"];
 
 #[derive(Clone, Debug)]
@@ -268,7 +271,8 @@ pub fn gen_zone_records(rng: &mut Rng, apex: &RName, class: u16, opts: &ZoneOpts
             rd.extend(std::iter::repeat(b'a' + i as u8).take(200));
             push(&mut recs, rng, owner.clone(), T_TXT, rd);
         }
-        if class == C_IN && rng.chance(1, 3) {
+        let small = SMALL_ZONES.load(std::sync::atomic::Ordering::Relaxed);
+        if class == C_IN && !small && rng.chance(1, 3) {
             // an MX RRset of 17-40 exchanges whose address RRsets differ in size (0-14 records), with
             // exchange names nested in one another: over UDP, optional address RRsets stop fitting
             // somewhere in the middle of additional-section processing and later ones fit again
@@ -293,7 +297,7 @@ pub fn gen_zone_records(rng: &mut Rng, apex: &RName, class: u16, opts: &ZoneOpts
                 prev = Some(target);
             }
         }
-        if class == C_IN && rng.chance(1, 12) {
+        if class == C_IN && !small && rng.chance(1, 12) {
             // one RRset whose response is larger than 16 KiB (TCP only): exchange names whose
             // suffix labels first appear beyond offset 16383, where a 14-bit compression
             // pointer cannot reach
